@@ -100,8 +100,8 @@ Print M.
 def run(ctx):
     ctx.coq_props()
     quick = ctx.tier == "quick"
-    ncode = 900 if quick else 12000
-    norac = 500 if quick else 8000
+    ncode = 700 if quick else 12000
+    norac = 400 if quick else 8000
     binp = ctx.go_build("c20")
     if not binp:
         return
